@@ -165,6 +165,41 @@ def run(R, tier):
                 viol('drag-writeback', f'after reporting {new} for the multivector with keys {t[2]} in {an} the front end would be sent {d}, expected {want}',
                      algebra=an, mv=str(t), reported=new)
             cur = d
+    # several draggable points and a callable that depends on them; the front end reports that ONE of them moved (every draggable point
+    # comes back as a full multivector): the moved point is overwritten in place and the subjects SENT afterwards (the `subjects`
+    # trait, not a fresh evaluation) are those of the new state, dependent callables included
+    for c in range(8 if tier == 'quick' else 100):
+        an = rng.choice(['P2', 'P3', 'P2c'] if 'P2c' in pool else ['P2', 'P3'])
+        alg = pool[an]
+        canon = G.CANON[an]
+        npts = rng.choice((2, 3))
+        pts = [alg.vector([float(rng.randint(1, 5)) for _ in range(alg.d)]).dual() for _ in range(npts)]
+        dep = lambda: pts[0] & pts[-1]
+        w = alg.graph(0xFF0000, *pts, dep)
+        idxs = list(w.draggable_points_idxs)
+        R.count('drag=several-points'); R.case(('drag-several', an, npts, c), True)
+        if len(idxs) != npts:
+            continue            # not all recognised as draggable points in this algebra: nothing to move
+        def dense(m):
+            full = [0.0] * len(canon)
+            for k, v in m.items():
+                full[w.key2idx[k]] = float(v)
+            return full
+        moved = rng.randrange(npts)
+        newp = alg.vector([float(rng.randint(-5, 5)) for _ in range(alg.d)]).dual()
+        w.draggable_points = [{'mv': dense(newp) if i == moved else dense(p)} for i, p in enumerate(pts)]
+        try:
+            sent = G.js_decode(w.subjects, w.key2idx)
+            want = [0xFF0000] + [('E', [G.num_of(v) for v in dense(newp if i == moved else p)]) for i, p in enumerate(pts)]
+            jn = (newp if moved == 0 else pts[0]) & (newp if moved == npts - 1 else pts[-1])
+            want.append(('E', [G.num_of(v) for v in dense(jn)]))
+            stored_ok = dense(pts[moved]) == dense(newp)
+        except (AssertionError, ValueError) as e:
+            viol('payload-shape', f'after a drag of point {moved} of {npts} in {an}: {type(e).__name__} {e}'[:300], algebra=an); continue
+        if not stored_ok or sent != want:
+            viol('drag-writeback', f'{npts} draggable points and a callable depending on them in {an}; the front end reported that point {moved} moved to {dense(newp)}: '
+                                   f'the point object now holds {dense(pts[moved])}, the subjects sent are {str(sent)[:300]}, expected {str(want)[:300]}',
+                 algebra=an, moved=moved, points=[dense(p) for p in pts])
     # the front end's own code (toElement / decode extracted from graph.js, executed by node) must decode every payload to
     # what the hand-made mirror of it (tools/graphlib.py, Model/Graph.v) computed: ties the trusted re-modelling to the JS
     real = G.node_decode([(sj, k2) for sj, k2, _, _, _ in js_jobs], kv.REPO) if js_jobs else []
